@@ -23,3 +23,26 @@ void h_readStart(void) { Parser *p; size_t a, b, c; bool r = Parser_readStartOrE
 /* ---- emitEof ---- */
 DECL_emitEof(Parser_emitEof_contract, EMITEOF_POST)
 void h_emitEof(void) { Parser *p; Parser_emitEof(p); IORA_CANARY("h_emitEof: returns"); }
+/* ---- readProcessingInstruction / readDoctype ---- */
+DECL_readPI(Parser_readPI_safe, OTHER_SAFE OTHER_TOKEN(TokenKind_ProcessingInstruction))
+DECL_readPI(Parser_readPI_slice, PI_SLICE)
+DECL_readDoctype(Parser_readDoctype_safe, OTHER_SAFE OTHER_TOKEN(TokenKind_Doctype))
+DECL_readDoctype(Parser_readDoctype_slice, DOCTYPE_SLICE)
+void h_readPI(void) { Parser *p; size_t a, b, c; bool r = Parser_readProcessingInstruction(p, a, b, c); IORA_CANARY("h_readPI: returns"); if (r) { IORA_CANARY("h_readPI: token"); } else { IORA_CANARY("h_readPI: error"); } }
+void h_readDoctype(void) { Parser *p; size_t a, b, c; bool r = Parser_readDoctype(p, a, b, c); IORA_CANARY("h_readDoctype: returns"); if (r) { IORA_CANARY("h_readDoctype: token"); } else { IORA_CANARY("h_readDoctype: error"); } }
+/* lemma (plain harness + the loop contract of the body): the plain C body of find("?>") satisfies the clauses of the stub's contract */
+void h_find2(void)
+{
+  iora_sv v; size_t pos; char w[3];
+  IORA_TRUE = 1;
+  __CPROVER_assume((v.n >> 40) == 0);
+  v.p = (const char *)malloc(v.n);
+  __CPROVER_assume(v.p != NULL && w[0] != 0 && w[1] != 0);
+  w[2] = 0;
+  size_t r = xsv_find_str2_impl(&v, w, pos);
+  IORA_CANARY("h_find2: returns");
+  __CPROVER_assert(r == IORA_NPOS || (pos <= r && r < v.n && v.n - r >= 2), "find2: result is npos or an in-range position at/after pos");
+  __CPROVER_assert(r != IORA_NPOS ==> XSV_F2_AT(&v, r, w), "find2: the two bytes at the result match");
+  __CPROVER_assert((pos <= GF && GF < v.n && v.n - GF >= 2 && (r == IORA_NPOS || GF < r)) ==> !XSV_F2_AT(&v, GF, w), "find2: FIRST occurrence (no match at the arbitrary index GF before the result)");
+  if (r == IORA_NPOS) { IORA_CANARY("h_find2: not found"); } else { IORA_CANARY("h_find2: found"); }
+}
